@@ -1,4 +1,4 @@
-import PcfgVerif.Lemmas.DetectWebsiteSpec
+import PcfgVerif.Lemmas.DetectYearSpec
 import PcfgVerif.Properties.DetectCoreA
 import PcfgVerif.Properties.DetectCoreB
 import PcfgVerif.Properties.DetectCoreC
@@ -277,5 +277,26 @@ theorem C05_email_detected_iff (U : Detect.UEnv) (text : CPs) :
       ∃ tld ∈ Generated.Tables.tldList, ∃ e0, Detect.findSub (U.lowerS text) tld = some e0 ∧
         ∃ m, Detect.OccursAt ((U.lowerS text).take (e0 + tld.length)) [Detect.cpOf '@'] m :=
   Detect.detectEmail_isSome_iff U text
+
+/-- **which four characters are taken for a year** (the search loop of `detect_year`, for every string, every digit classification and
+both prefixes of the source's table): the position returned is an occurrence of `19` / `20` whose four characters are a year - they are
+all there, no digit stands in front of them or behind them, the last two are digits - and no occurrence of the prefix further left is.
+(That the loop gives up as soon as a candidate has fewer than four characters left loses nothing: every later candidate has fewer.) -/
+theorem C05_year_first_year (U : Detect.UEnv) (w pre : CPs) (hm : pre ∈ Generated.Tables.yearPrefixes) (si : Nat)
+    (h : Detect.yearScan U w pre (w.length + 1) 0 = some si) :
+    Detect.OccursAt w pre si ∧ Detect.yearOk U w si = true ∧
+      ∀ k, k < si → Detect.OccursAt w pre k → Detect.yearOk U w k = false :=
+  Detect.yearSearch_first_year U w pre hm si h
+
+/-- `x1987a19999y2012`: `1987` at 1 is a year; in `119999y2012` the first `19` (at 1) has a digit in front, `1999` at 2 has digits on
+both sides... the search for `20` finds `2012` at 7 -/
+example :
+    let U : Detect.UEnv := ⟨fun c => (97 ≤ c && c ≤ 122) || (65 ≤ c && c ≤ 90), fun c => 48 ≤ c && c ≤ 57, fun c => 65 ≤ c && c ≤ 90, id, id⟩
+    let w1 := "x1987a".toList.map Char.toNat
+    let w2 := "119999y2012".toList.map Char.toNat
+    Detect.yearScan U w1 [49, 57] (w1.length + 1) 0 = some 1 ∧
+    Detect.yearScan U w2 [49, 57] (w2.length + 1) 0 = none ∧
+    Detect.yearScan U w2 [50, 48] (w2.length + 1) 0 = some 7 := by
+  decide
 
 end Pcfg.C05
